@@ -306,6 +306,13 @@ theorem sig_hash_preimage_equal (H : Bytes → Bytes) (inp : DkgInput) (r : DkgR
     hc, hb']
 
 
+/-- Why `sig_hash_preimage_equal` needs `startBlock < 2^63`: the client converts the `uint64`
+    start block with `big.NewInt(int64(startBlock))`, so from `2^63` on it packs the two's
+    complement of a negative number while the contract uses the block number itself.
+    (Unreachable in practice: Ethereum block numbers are far below `2^63`.) -/
+theorem startBlock_int64_wrap : startBlockWord (2 ^ 63) = 2 ^ 256 - 2 ^ 63 ∧ startBlockWord (2 ^ 63) ≠ 2 ^ 63 := by
+  decide
+
 /-! ## wallet id -/
 
 /-- **wallet_id_equal.** The id the client computes with `calculateWalletID` for the group key is
@@ -463,6 +470,536 @@ theorem assembled_passes_static (H : Bytes → Bytes) (inp : DkgInput)
     have k11' : ¬ (s0 < 1 ∨ (s0 :: tl).getLastD 0 > groupSize) := by
       simpa [List.headD] using k11
     simp only [k11', k12, if_false, not_true_eq_false]
+
+
+/-! ## inactivity claims -/
+
+theorem mem_dedup : ∀ {l : List Nat} {a : Nat}, a ∈ dedup l ↔ a ∈ l
+  | [], _ => by simp [dedup]
+  | b :: l, a => by
+    simp only [dedup, List.mem_cons, List.mem_filter, mem_dedup (l := l), decide_eq_true_eq]
+    constructor
+    · rintro (h | ⟨h, _⟩)
+      · exact Or.inl h
+      · exact Or.inr h
+    · rintro (h | h)
+      · exact Or.inl h
+      · by_cases hab : a = b
+        · exact Or.inl hab
+        · exact Or.inr ⟨h, hab⟩
+
+theorem dedup_nodup : ∀ (l : List Nat), (dedup l).Nodup
+  | [] => by simp [dedup]
+  | b :: l => by
+    simp only [dedup, List.nodup_cons, List.mem_filter, decide_eq_true_eq]
+    exact ⟨fun h => h.2 rfl, (dedup_nodup l).filter _⟩
+
+/-- a strictly increasing list inside `[lo, n]` has at most `n + 1 - lo` elements -/
+theorem strict_length_le (n : Nat) : ∀ (l : List Nat) (lo : Nat), l.Pairwise (· < ·) → lo ≤ n + 1 →
+    (∀ a ∈ l, lo ≤ a ∧ a ≤ n) → l.length + lo ≤ n + 1
+  | [], lo, _, h, _ => by simpa using h
+  | a :: t, lo, hs, _, hr => by
+    rw [List.pairwise_cons] at hs
+    have ha := hr a (by simp)
+    have := strict_length_le n t (a + 1) hs.2 (by omega)
+      (fun b hb => ⟨hs.1 b hb, (hr b (by simp [hb])).2⟩)
+    simp only [List.length_cons]; omega
+
+/-- the contract's `validateMembersIndices` accepts every non-empty strictly increasing list
+    of indexes inside `[1, n]` -/
+theorem validateMembersIndices_ok (l : List Nat) (n : Nat) (hs : l.Pairwise (· < ·)) (hne : l ≠ [])
+    (hr : ∀ a ∈ l, 1 ≤ a ∧ a ≤ n) : validateMembersIndices l n = true := by
+  have hlen := strict_length_le n l 1 hs (by omega) hr
+  have hpos : 0 < l.length := List.length_pos_iff.2 hne
+  have h1 := hr _ (headD_mem l 0 hne)
+  have h2 := hr _ (getLastD_mem l 0 hne)
+  simp only [validateMembersIndices, Bool.and_eq_true, decide_eq_true_eq]
+  exact ⟨⟨⟨by omega, by omega⟩, ⟨by omega, by omega⟩⟩, chainLt_of_strict hs⟩
+
+theorem assembleClaim_ok_iff (inp : ClaimInput) (c : Claim) :
+    assembleClaim inp = .ok c ↔
+      ∃ signers sigBytes, convertSignatures inp.sigs = .ok (signers, sigBytes) ∧
+        c = { walletID := inp.walletID, inactive := claimInactive inp.inactive,
+              heartbeatFailed := inp.heartbeatFailed, signatures := sigBytes, signing := signers } := by
+  unfold assembleClaim
+  constructor
+  · intro h
+    split at h
+    · cases h
+    · rename_i signers sigBytes hc
+      injection h with h
+      exact ⟨signers, sigBytes, hc, h.symm⟩
+  · rintro ⟨signers, sigBytes, hc, rfl⟩
+    simp [hc]
+
+/-- **sig_hash_preimage_equal (inactivity claim).** For every chain id and nonce below `2^256`,
+    every key, every accused list (any order, duplicates allowed) and both values of the heartbeat
+    flag: the bytes the client hashes and signs in `CalculateInactivityClaimHash` for the claim
+    pre-image are the bytes `EcdsaInactivity.verifyClaim` hashes for the assembled claim (with the
+    wallet's registered key `bytes.concat(x, y)`). -/
+theorem claim_hash_preimage_equal (inp : ClaimInput) (c : Claim)
+    (hc : inp.chainId < 2 ^ 256) (hn : inp.nonce < 2 ^ 256) (hm : ∀ m ∈ inp.inactive, m < 256)
+    (hr : assembleClaim inp = .ok c) :
+    (claimPreimageClient inp.chainId inp.nonce inp.x inp.y (claimInactive inp.inactive)
+        inp.heartbeatFailed).toOption =
+      claimPreimageContract inp.chainId inp.nonce (marshalCropped inp.x inp.y) c ∧
+    (claimPreimageContract inp.chainId inp.nonce (marshalCropped inp.x inp.y) c).isSome := by
+  obtain ⟨signers, sigBytes, _, rfl⟩ := (assembleClaim_ok_iff inp c).1 hr
+  have hlen : ¬ (marshalCropped inp.x inp.y).length ≠ goInactPublicKeySize := by
+    rw [marshalCropped_length]; decide
+  have hcm : inp.chainId % 2 ^ 256 = inp.chainId := Nat.mod_eq_of_lt hc
+  have hnm : inp.nonce % 2 ^ 256 = inp.nonce := Nat.mod_eq_of_lt hn
+  unfold claimPreimageClient claimPreimageContract
+  simp only [hlen, if_false, hcm, hnm, abi_types_tie.2.1]
+  refine ⟨by cases encodeTyped _ _ <;> rfl, ?_⟩
+  have hall : ((claimInactive inp.inactive).all fun x => decide (x < 2 ^ 256)) = true := by
+    simp only [List.all_eq_true, decide_eq_true_eq]
+    intro a ha
+    have := hm a (mem_dedup.1 (mem_sortNat.1 ha))
+    omega
+  simp [encodeTyped, Gen.C40.solInactTypes, Ty.parse, encode, encodeGo, encVal, Ty.isDynamic, hall,
+    hc, hn]
+
+/-- **claim_passes_static.** For every wallet group of `N ≤ 255` members, every non-empty accused
+    list inside `[1, N]` (any order, duplicates allowed), every supporter map (any iteration order)
+    whose keys are member indexes with at least `groupThreshold` signatures of 65 bytes:
+    `AssembleInactivityClaim` on the claim pre-image succeeds and the claim passes every static
+    `require` of `EcdsaInactivity.verifyClaim`. -/
+theorem claim_passes_static (inp : ClaimInput)
+    (hina : inp.inactive ≠ []) (hinr : ∀ a ∈ inp.inactive, 1 ≤ a ∧ a ≤ inp.ids.length)
+    (hkeys : (inp.sigs.map Prod.fst).Nodup)
+    (hrange : ∀ k ∈ inp.sigs.map Prod.fst, 1 ≤ k ∧ k ≤ inp.ids.length)
+    (hcount : inactGroupThreshold ≤ inp.sigs.length)
+    (hlen : ∀ s ∈ inp.sigs, s.2.length = goSignatureSize) :
+    ∃ c, assembleClaim inp = .ok c ∧ verifyClaimStatic c inp.ids.length = "" := by
+  obtain ⟨c1, c2, c3, c4, c5, c6, c7, c8, c9, c10, c11⟩ := constants_tie
+  obtain ⟨bs, hconv, hbl⟩ := convertSignatures_ok inp.sigs hlen
+  refine ⟨_, (assembleClaim_ok_iff inp _).2 ⟨_, _, hconv, rfl⟩, ?_⟩
+  have hsz : 0 < inactSignatureByteSize := by rw [← c2, c1]; exact c6
+  have hbl' : bs.length = inactSignatureByteSize * inp.sigs.length := by rw [hbl, c2]
+  have hinaS : (claimInactive inp.inactive).Pairwise (· < ·) := sortNat_strict (dedup_nodup _)
+  have hinaNe : claimInactive inp.inactive ≠ [] := by
+    obtain ⟨a, ha⟩ := List.exists_mem_of_ne_nil _ hina
+    intro h
+    have : a ∈ claimInactive inp.inactive := mem_sortNat.2 (mem_dedup.2 ha)
+    rw [h] at this; simp at this
+  have hinaR : ∀ a ∈ claimInactive inp.inactive, 1 ≤ a ∧ a ≤ inp.ids.length :=
+    fun a ha => hinr a (mem_dedup.1 (mem_sortNat.1 ha))
+  have hsigS := sortNat_strict hkeys
+  have hsigR : ∀ a ∈ sortNat (inp.sigs.map Prod.fst), 1 ≤ a ∧ a ≤ inp.ids.length :=
+    fun a ha => hrange a (mem_sortNat.1 ha)
+  have hslen : (sortNat (inp.sigs.map Prod.fst)).length = inp.sigs.length := by
+    rw [sortNat_length, List.length_map]
+  have hsne : sortNat (inp.sigs.map Prod.fst) ≠ [] := by
+    intro h; rw [h] at hslen; simp at hslen; omega
+  have hcnt := strict_length_le inp.ids.length _ 1 hsigS (by omega) hsigR
+  have k1 := validateMembersIndices_ok _ _ hinaS hinaNe hinaR
+  have k2 : ¬ bs.length = 0 := by
+    rw [hbl']; intro h
+    rcases Nat.mul_eq_zero.1 h with h | h <;> omega
+  have k3 : ¬ bs.length % inactSignatureByteSize ≠ 0 := by rw [hbl']; simp
+  have kdiv : bs.length / inactSignatureByteSize = inp.sigs.length := by
+    rw [hbl']; exact Nat.mul_div_cancel_left _ hsz
+  have k4 : ¬ bs.length / inactSignatureByteSize ≠ (sortNat (inp.sigs.map Prod.fst)).length := by
+    rw [kdiv, hslen]; simp
+  have k5 : ¬ bs.length / inactSignatureByteSize < inactGroupThreshold := by rw [kdiv]; omega
+  have k6 : ¬ bs.length / inactSignatureByteSize > inp.ids.length := by rw [kdiv]; omega
+  have k7 := validateMembersIndices_ok _ _ hsigS hsne hsigR
+  simp only [verifyClaimStatic, k1, k2, k3, k4, k5, k6, k7, if_false, not_true_eq_false]
+
+/-- non-vacuity: duplicates and order of the accused list disappear -/
+example : dedup [7, 3, 7, 1, 3] = [7, 3, 1] := by decide
+example : validateMembersIndices [1, 3, 7] 10 = true := by decide
+example : validateMembersIndices [3, 1, 7] 10 = false := by decide
+
+
+/-! ## the supporter map's iteration order does not matter -/
+
+theorem lookup_eq_some_iff (sigs : List (Nat × Bytes)) (hnd : (sigs.map Prod.fst).Nodup) (i : Nat)
+    (s : Bytes) : sigs.lookup i = some s ↔ (i, s) ∈ sigs := by
+  induction sigs with
+  | nil => simp
+  | cons kv tl ih =>
+    obtain ⟨k, v⟩ := kv
+    simp only [List.map_cons, List.nodup_cons] at hnd
+    by_cases hik : i = k
+    · subst hik
+      have hb : (i == i) = true := by simp
+      simp only [List.lookup, hb, Option.some.injEq, List.mem_cons, Prod.mk.injEq, true_and]
+      constructor
+      · intro h; exact Or.inl h.symm
+      · rintro (h | h)
+        · exact h.symm
+        · exact absurd (List.mem_map_of_mem (f := Prod.fst) h) hnd.1
+    · have hb : (i == k) = false := by simpa using hik
+      simp only [List.lookup, hb, ih hnd.2, List.mem_cons, Prod.mk.injEq, hik, false_and, false_or]
+
+theorem lookup_perm {sigs sigs' : List (Nat × Bytes)} (hp : sigs.Perm sigs')
+    (hnd : (sigs.map Prod.fst).Nodup) (i : Nat) : sigs.lookup i = sigs'.lookup i := by
+  have hnd' : (sigs'.map Prod.fst).Nodup := (hp.map Prod.fst).nodup_iff.1 hnd
+  cases h : sigs.lookup i with
+  | some s =>
+    have := (lookup_eq_some_iff sigs hnd i s).1 h
+    exact ((lookup_eq_some_iff sigs' hnd' i s).2 (hp.mem_iff.1 this)).symm
+  | none =>
+    cases h' : sigs'.lookup i with
+    | none => rfl
+    | some s =>
+      have := (lookup_eq_some_iff sigs' hnd' i s).1 h'
+      have := (lookup_eq_some_iff sigs hnd i s).2 (hp.mem_iff.2 this)
+      rw [h] at this; cases this
+
+theorem concatSigs_congr {sigs sigs' : List (Nat × Bytes)} (h : ∀ i, sigs.lookup i = sigs'.lookup i) :
+    ∀ l, concatSigs sigs l = concatSigs sigs' l
+  | [] => rfl
+  | i :: rest => by simp only [concatSigs, h i, concatSigs_congr h rest]
+
+/-- **Map order.** Go iterates the signature map in an unspecified order; whatever the order, the
+    signer indexes and the concatenated signatures come out the same (keys of a map are distinct). -/
+theorem convertSignatures_order_independent {sigs sigs' : List (Nat × Bytes)} (hp : sigs.Perm sigs')
+    (hnd : (sigs.map Prod.fst).Nodup) : convertSignatures sigs = convertSignatures sigs' := by
+  have hnd' : (sigs'.map Prod.fst).Nodup := (hp.map Prod.fst).nodup_iff.1 hnd
+  have hidx : sortNat (sigs.map Prod.fst) = sortNat (sigs'.map Prod.fst) :=
+    strict_unique (sortNat_strict hnd) (sortNat_strict hnd')
+      (fun a => by rw [mem_sortNat, mem_sortNat]; exact (hp.map Prod.fst).mem_iff)
+  simp only [convertSignatures, hidx, concatSigs_congr (lookup_perm hp hnd)]
+
+/-! ## monitor tie: the monitor accepts every output of the model -/
+
+theorem isPartition_spec {n : Nat} {operating mis : List Nat} (h : isPartition n operating mis = true) :
+    IsPartition n operating mis := by
+  have := eq_of_beq h
+  unfold IsPartition
+  rw [← this]
+  exact (sortNat_perm _).symm
+
+theorem keysOk_spec {n : Nat} {sigs : List (Nat × Bytes)} (h : keysOk n sigs = true) :
+    (sigs.map Prod.fst).Nodup ∧ ∀ k ∈ sigs.map Prod.fst, 1 ≤ k ∧ k ≤ n := by
+  simp only [keysOk, Bool.and_eq_true, List.all_eq_true, decide_eq_true_eq] at h
+  exact ⟨(sortNat_perm _).nodup_iff.1 (strict_nodup (strict_of_chainLt h.1)), h.2⟩
+
+/-- the observation the model predicts for a DKG case; `rec` = the recovery flags (A-ecdsa) -/
+def modelDkgObs (H : Bytes → Bytes) (inp : DkgInput) (rec : List Bool) : Option DkgObs :=
+  match assembleDKGResult H inp,
+    dkgSigPreimageClient inp.chainId inp.x inp.y inp.misbehaved inp.startBlock,
+    walletIdClient H inp.x inp.y with
+  | .ok r, .ok pre, .ok wid => some { res := r, hash := H pre, recovered := rec, walletId := wid }
+  | _, _, _ => none
+
+/-- **Monitor soundness for the DKG path.** For every input whatsoever, the monitor `holdsDkg`
+    accepts what the model computes, provided the recovery flags obey A-ecdsa (signatures really
+    made by the operator of the seat recover to that operator's address). Together with the
+    byte-for-byte correspondence of model and implementation this is what transfers the theorems
+    above to the implementation's outputs. -/
+theorem holdsDkg_model (H : Bytes → Bytes) (inp : DkgInput) (real : List Nat) (rec : List Bool)
+    (hrec : ∀ r, assembleDKGResult H inp = .ok r →
+      realRecovered r.signing rec real = true ∧
+      ((inp.sigs.all fun s => real.contains s.1) = true → rec.all id = true ∧ rec.length = inp.sigs.length)) :
+    holdsDkg H inp real (modelDkgObs H inp rec) = true := by
+  obtain ⟨c1, c2, c3, c4, c5, c6, c7, c8, c9, c10, c11⟩ := constants_tie
+  -- what the domain predicate says
+  have hdom : dkgInDomain inp = true →
+      inp.ids.length ≤ 255 ∧ IsPartition inp.ids.length inp.operating inp.misbehaved ∧
+      ((inp.sigs.map Prod.fst).Nodup ∧ ∀ k ∈ inp.sigs.map Prod.fst, 1 ≤ k ∧ k ≤ inp.ids.length) ∧
+      (inp.x < 2 ^ 256 ∧ inp.y < 2 ^ 256) ∧ (inp.chainId < 2 ^ 256 ∧ inp.startBlock < 2 ^ 63) ∧
+      (∀ v ∈ inp.ids, v < 2 ^ 32) := by
+    intro h
+    simp only [dkgInDomain, Bool.and_eq_true, decide_eq_true_eq, List.all_eq_true] at h
+    obtain ⟨⟨⟨⟨⟨⟨h1, h2⟩, h3⟩, h4⟩, h5⟩, h6⟩, _⟩ := h
+    exact ⟨h1, isPartition_spec h2, keysOk_spec h3, h4, h5, h6⟩
+  -- in the domain, whenever the result is assembled the contract's derived values agree
+  have hin : ∀ r pre wid, dkgInDomain inp = true → assembleDKGResult H inp = .ok r →
+      dkgSigPreimageClient inp.chainId inp.x inp.y inp.misbehaved inp.startBlock = .ok pre →
+      walletIdClient H inp.x inp.y = .ok wid →
+      (validateMembersHash H r == some true &&
+        (dkgSigPreimageContract inp.chainId r inp.startBlock).map H == some (H pre) &&
+        walletIdContract H r.groupPubKey == wid && r.members == inp.ids &&
+        r.submitter == inp.submitter && realRecovered r.signing rec real) = true := by
+    intro r pre wid hd hr hpre hwid
+    obtain ⟨hN, hp, _, _, ⟨hc, hb⟩, _⟩ := hdom hd
+    have hm : ∀ m ∈ inp.misbehaved, m < 256 := fun m hm => by have := hp.mem_mis m hm; omega
+    have e1 := members_hash_matches H inp r hN hp hr
+    have e2 := (sig_hash_preimage_equal H inp r hc hb hm hr).1
+    rw [hpre] at e2
+    have e3 := wallet_id_equal H inp r hr
+    rw [hwid] at e3
+    injection e3 with e3
+    obtain ⟨_, _, _, _, _, _, _, _, _, rfl⟩ := (assemble_ok_iff H inp r).1 hr
+    have e2' : dkgSigPreimageContract inp.chainId _ inp.startBlock = some pre := e2.symm
+    simp [e1, e2', e3, (hrec _ hr).1]
+  -- a submittable input is assembled, hashed and passes the static checks
+  have hsub : dkgSubmittable inp = true → dkgInDomain inp = true ∧
+      ∃ r pre wid, assembleDKGResult H inp = .ok r ∧
+        dkgSigPreimageClient inp.chainId inp.x inp.y inp.misbehaved inp.startBlock = .ok pre ∧
+        walletIdClient H inp.x inp.y = .ok wid ∧ validateFields r = "" := by
+    intro h
+    simp only [dkgSubmittable, Bool.and_eq_true, decide_eq_true_eq, List.all_eq_true] at h
+    obtain ⟨⟨⟨⟨hd, hsz⟩, hq⟩, hcnt⟩, hl⟩ := h
+    obtain ⟨hN, hp, ⟨hk1, hk2⟩, hxy, ⟨hc, hb⟩, hids⟩ := hdom hd
+    obtain ⟨r, hr, hv⟩ := assembled_passes_static H inp hsz hp hq hk1 hk2 hcnt hl hxy hids
+    have hm : ∀ m ∈ inp.misbehaved, m < 256 := fun m hm => by have := hp.mem_mis m hm; omega
+    obtain ⟨e2, e2s⟩ := sig_hash_preimage_equal H inp r hc hb hm hr
+    refine ⟨hd, r, ?_⟩
+    cases hcl : dkgSigPreimageClient inp.chainId inp.x inp.y inp.misbehaved inp.startBlock with
+    | error e => rw [hcl] at e2; rw [← e2] at e2s; cases e2s
+    | ok pre => exact ⟨pre, _, hr, rfl, wallet_id_equal H inp r hr, hv⟩
+  unfold modelDkgObs
+  cases hs : dkgSubmittable inp with
+  | true =>
+    obtain ⟨hd, r, pre, wid, hr, hpre, hwid, hv⟩ := hsub hs
+    have h1 := hin r pre wid hd hr hpre hwid
+    have h2 := (hrec r hr).2
+    simp only [hr, hpre, hwid, holdsDkg, hd, hs, Bool.not_true, Bool.false_or, h1, hv, Bool.true_and,
+      beq_self_eq_true]
+    cases hall : (inp.sigs.all fun s => real.contains s.1) with
+    | false => rfl
+    | true => simp [h2 hall]
+  | false =>
+    cases hr : assembleDKGResult H inp with
+    | error e => simp [holdsDkg, hs]
+    | ok r =>
+      cases hpre : dkgSigPreimageClient inp.chainId inp.x inp.y inp.misbehaved inp.startBlock with
+      | error e => simp [holdsDkg, hs]
+      | ok pre =>
+        cases hwid : walletIdClient H inp.x inp.y with
+        | error e => simp [holdsDkg, hs]
+        | ok wid =>
+          cases hd : dkgInDomain inp with
+          | false => simp [holdsDkg, hs, hd]
+          | true =>
+            have h1 := hin r pre wid hd hr hpre hwid
+            simp only [holdsDkg, hd, hs, Bool.not_true, Bool.false_or, h1, Bool.not_false,
+              Bool.true_or, Bool.and_self]
+
+
+/-- the observation the model predicts for an inactivity case -/
+def modelClaimObs (H : Bytes → Bytes) (inp : ClaimInput) (rec : List Bool) : Option ClaimObs :=
+  match assembleClaim inp,
+    claimPreimageClient inp.chainId inp.nonce inp.x inp.y (claimInactive inp.inactive) inp.heartbeatFailed with
+  | .ok c, .ok pre => some { claim := c, hash := H pre, recovered := rec }
+  | _, _ => none
+
+/-- **Monitor soundness for the inactivity path** (same shape as `holdsDkg_model`). -/
+theorem holdsClaim_model (H : Bytes → Bytes) (inp : ClaimInput) (real : List Nat) (rec : List Bool)
+    (hrec : ∀ c, assembleClaim inp = .ok c →
+      realRecovered c.signing rec real = true ∧
+      ((inp.sigs.all fun s => real.contains s.1) = true → rec.all id = true ∧ rec.length = inp.sigs.length)) :
+    holdsClaim H inp real (modelClaimObs H inp rec) = true := by
+  have hdom : claimInDomain inp = true →
+      inp.ids.length ≤ 255 ∧
+      ((inp.sigs.map Prod.fst).Nodup ∧ ∀ k ∈ inp.sigs.map Prod.fst, 1 ≤ k ∧ k ≤ inp.ids.length) ∧
+      (inp.chainId < 2 ^ 256 ∧ inp.nonce < 2 ^ 256) ∧
+      (∀ k ∈ inp.inactive, 1 ≤ k ∧ k ≤ inp.ids.length) := by
+    intro h
+    simp only [claimInDomain, Bool.and_eq_true, decide_eq_true_eq, List.all_eq_true] at h
+    obtain ⟨⟨⟨⟨⟨h1, h2⟩, _⟩, h4⟩, h5⟩, _⟩ := h
+    exact ⟨h1, keysOk_spec h2, h4, h5⟩
+  have hin : ∀ c pre, claimInDomain inp = true → assembleClaim inp = .ok c →
+      claimPreimageClient inp.chainId inp.nonce inp.x inp.y (claimInactive inp.inactive)
+        inp.heartbeatFailed = .ok pre →
+      ((claimPreimageContract inp.chainId inp.nonce (marshalCropped inp.x inp.y) c).map H == some (H pre) &&
+        c.walletID == inp.walletID && c.heartbeatFailed == inp.heartbeatFailed &&
+        realRecovered c.signing rec real) = true := by
+    intro c pre hd hr hpre
+    obtain ⟨hN, _, ⟨hc, hn⟩, hina⟩ := hdom hd
+    have hm : ∀ m ∈ inp.inactive, m < 256 := fun m hm => by have := hina m hm; omega
+    have e2 := (claim_hash_preimage_equal inp c hc hn hm hr).1
+    rw [hpre] at e2
+    have e2' : claimPreimageContract inp.chainId inp.nonce (marshalCropped inp.x inp.y) c = some pre := e2.symm
+    obtain ⟨_, _, _, rfl⟩ := (assembleClaim_ok_iff inp c).1 hr
+    simp [e2', (hrec _ hr).1]
+  have hsub : claimSubmittable inp = true → claimInDomain inp = true ∧
+      ∃ c pre, assembleClaim inp = .ok c ∧
+        claimPreimageClient inp.chainId inp.nonce inp.x inp.y (claimInactive inp.inactive)
+          inp.heartbeatFailed = .ok pre ∧ verifyClaimStatic c inp.ids.length = "" := by
+    intro h
+    simp only [claimSubmittable, Bool.and_eq_true, decide_eq_true_eq, List.all_eq_true] at h
+    obtain ⟨⟨⟨hd, hne⟩, hcnt⟩, hl⟩ := h
+    obtain ⟨hN, ⟨hk1, hk2⟩, ⟨hc, hn⟩, hina⟩ := hdom hd
+    obtain ⟨c, hr, hv⟩ := claim_passes_static inp hne hina hk1 hk2 hcnt hl
+    have hm : ∀ m ∈ inp.inactive, m < 256 := fun m hm => by have := hina m hm; omega
+    obtain ⟨e2, e2s⟩ := claim_hash_preimage_equal inp c hc hn hm hr
+    refine ⟨hd, c, ?_⟩
+    cases hcl : claimPreimageClient inp.chainId inp.nonce inp.x inp.y (claimInactive inp.inactive)
+        inp.heartbeatFailed with
+    | error e => rw [hcl] at e2; rw [← e2] at e2s; cases e2s
+    | ok pre => exact ⟨pre, hr, rfl, hv⟩
+  unfold modelClaimObs
+  cases hs : claimSubmittable inp with
+  | true =>
+    obtain ⟨hd, c, pre, hr, hpre, hv⟩ := hsub hs
+    have h1 := hin c pre hd hr hpre
+    have h2 := (hrec c hr).2
+    simp only [hr, hpre, holdsClaim, hd, hs, Bool.not_true, Bool.false_or, h1, hv, Bool.true_and,
+      beq_self_eq_true]
+    cases hall : (inp.sigs.all fun s => real.contains s.1) with
+    | false => rfl
+    | true => simp [h2 hall]
+  | false =>
+    cases hr : assembleClaim inp with
+    | error e => simp [holdsClaim, hs]
+    | ok c =>
+      cases hpre : claimPreimageClient inp.chainId inp.nonce inp.x inp.y (claimInactive inp.inactive)
+          inp.heartbeatFailed with
+      | error e => simp [holdsClaim, hs]
+      | ok pre =>
+        cases hd : claimInDomain inp with
+        | false => simp [holdsClaim, hs, hd]
+        | true =>
+          have h1 := hin c pre hd hr hpre
+          simp only [holdsClaim, hd, hs, Bool.not_true, Bool.false_or, h1, Bool.not_false,
+            Bool.true_or, Bool.and_self]
+
+
+/-! ## signature recovery (A-ecdsa as a hypothesis) -/
+
+theorem slice_mid (pre c post : Bytes) (sz k : Nat) (hpre : pre.length = sz * k) (hc : c.length = sz) :
+    slice (pre ++ (c ++ post)) (sz * k) sz = c := by
+  unfold slice
+  rw [← hpre, List.drop_left, ← hc, List.take_left]
+
+/-- the contract's loop over the concatenated signatures accepts when chunk `i` recovers to
+    address `i` -/
+theorem checkSigLoop_concat (recover : Bytes → Bytes → Option Nat) (hash : Bytes) (sz : Nat) :
+    ∀ (chunks : List Bytes) (addrs : List Nat) (pre : Bytes) (k : Nat) (addrsPre : List Nat),
+      pre.length = sz * k → addrsPre.length = k → chunks.length = addrs.length →
+      (∀ c ∈ chunks, c.length = sz) → (∀ p ∈ chunks.zip addrs, recover hash p.1 = some p.2) →
+      checkSigLoop recover hash (pre ++ chunks.flatten) sz (addrsPre ++ addrs)
+        (List.range' k chunks.length) = some true
+  | [], _, _, _, _, _, _, _, _, _ => by simp [checkSigLoop]
+  | c :: cs, [], _, _, _, _, _, h, _, _ => by simp at h
+  | c :: cs, a :: as, pre, k, addrsPre, hpre, hap, hlen, hsz, hrec => by
+    have hc : c.length = sz := hsz c (by simp)
+    have hget : (addrsPre ++ a :: as)[k]? = some a := by
+      rw [List.getElem?_append_right (by omega)]
+      simp [hap]
+    have hr : recover hash c = some a := hrec (c, a) (by simp)
+    simp only [List.length_cons, List.range'_succ, List.flatten_cons, checkSigLoop, hget,
+      slice_mid pre c cs.flatten sz k hpre hc, hr, if_true]
+    have ih := checkSigLoop_concat recover hash sz cs as (pre ++ c) (k + 1) (addrsPre ++ [a])
+      (by rw [List.length_append, hpre, hc, Nat.mul_succ])
+      (by simp [hap]) (by simpa using hlen)
+      (fun c' hc' => hsz c' (by simp [hc']))
+      (fun p hp => hrec p (by simp only [List.zip_cons_cons, List.mem_cons]; exact Or.inr hp))
+    simpa [List.append_assoc] using ih
+
+theorem concatSigs_eq_flatten (sigs : List (Nat × Bytes)) :
+    ∀ (l : List Nat) (bs : Bytes), concatSigs sigs l = .ok bs →
+      bs = (l.map (fun i => (sigs.lookup i).getD [])).flatten ∧
+      ∀ i ∈ l, ((sigs.lookup i).getD []).length = goSignatureSize
+  | [], bs, h => by
+    simp only [concatSigs] at h
+    injection h with h
+    subst h
+    simp
+  | i :: rest, bs, h => by
+    simp only [concatSigs] at h
+    split at h
+    · cases h
+    · rename_i hl
+      split at h
+      · rename_i bs' hbs
+        injection h with h
+        subst h
+        obtain ⟨e, hall⟩ := concatSigs_eq_flatten sigs rest bs' hbs
+        refine ⟨by simp [e], ?_⟩
+        intro j hj
+        simp only [List.mem_cons] at hj
+        rcases hj with rfl | hj
+        · simpa using hl
+        · exact hall j hj
+      · cases h
+
+theorem pickMembers_ok (members : List Nat) :
+    ∀ (l : List Nat), (∀ i ∈ l, 1 ≤ i ∧ i ≤ members.length) →
+      pickMembers members l = some (l.map (fun i => members.getD (i - 1) 0))
+  | [], _ => rfl
+  | i :: rest, h => by
+    have hi := h i (by simp)
+    have hne : i ≠ 0 := by omega
+    have hlt : i - 1 < members.length := by omega
+    simp only [pickMembers, hne, if_false, List.getElem?_eq_getElem hlt,
+      pickMembers_ok members rest (fun j hj => h j (by simp [hj])), List.map_cons]
+    congr 2
+    simp [List.getD, List.getElem?_eq_getElem hlt]
+
+/-- **signatures_validate.** Assume ECDSA (A-ecdsa): `recover d (sign k d) = some (addrOf k)`.
+    If every supporter of the map is a member index and its signature was made by the operator of
+    that seat (`ids[idx-1]`) over the *client's* hash with the Ethereum prefix — which is what
+    `Signing().Sign(CalculateDKGResultSignatureHash(…))` does — then the contract's
+    `validateSignatures` accepts the assembled result (for every chain id below `2^256`, start
+    block below `2^63`, and every map iteration order). -/
+theorem signatures_validate (H : Bytes → Bytes) (recover : Bytes → Bytes → Option Nat)
+    (addrOf : Nat → Nat) (sign : Nat → Bytes → Bytes)
+    (hlaw : ∀ k d, recover d (sign k d) = some (addrOf k))
+    (inp : DkgInput) (r : DkgResult) (pre : Bytes)
+    (hc : inp.chainId < 2 ^ 256) (hb : inp.startBlock < 2 ^ 63) (hm : ∀ m ∈ inp.misbehaved, m < 256)
+    (hrange : ∀ k ∈ inp.sigs.map Prod.fst, 1 ≤ k ∧ k ≤ inp.ids.length)
+    (hpre : dkgSigPreimageClient inp.chainId inp.x inp.y inp.misbehaved inp.startBlock = .ok pre)
+    (hsigned : ∀ s ∈ inp.sigs, s.2 = sign (inp.ids.getD (s.1 - 1) 0) (ethSigned H (H pre)))
+    (hr : assembleDKGResult H inp = .ok r) :
+    validateSignatures H recover addrOf inp.chainId r inp.startBlock = some true := by
+  obtain ⟨c1, c2, c3, c4, c5, c6, _⟩ := constants_tie
+  have e2 := (sig_hash_preimage_equal H inp r hc hb hm hr).1
+  rw [hpre] at e2
+  have e2' : dkgSigPreimageContract inp.chainId r inp.startBlock = some pre := e2.symm
+  obtain ⟨key, signers, sigBytes, opIds, mpre, _, hconv, _, _, rfl⟩ := (assemble_ok_iff H inp r).1 hr
+  -- shape of the converted signatures
+  have hconv' : signers = sortNat (inp.sigs.map Prod.fst) ∧
+      concatSigs inp.sigs (sortNat (inp.sigs.map Prod.fst)) = .ok sigBytes := by
+    simp only [convertSignatures] at hconv
+    cases hcs : concatSigs inp.sigs (sortNat (inp.sigs.map Prod.fst)) with
+    | error e => rw [hcs] at hconv; cases hconv
+    | ok bs =>
+      rw [hcs] at hconv
+      injection hconv with hconv
+      injection hconv with h1 h2
+      exact ⟨h1.symm, by rw [← h2]⟩
+  obtain ⟨rfl, hcat⟩ := hconv'
+  obtain ⟨hflat, hlens⟩ := concatSigs_eq_flatten _ _ _ hcat
+  have hsr : ∀ i ∈ sortNat (inp.sigs.map Prod.fst), 1 ≤ i ∧ i ≤ inp.ids.length :=
+    fun i hi => hrange i (mem_sortNat.1 hi)
+  have hpick := pickMembers_ok inp.ids _ hsr
+  let idx := sortNat (inp.sigs.map Prod.fst)
+  let chunks := idx.map (fun i => (inp.sigs.lookup i).getD [])
+  have hchunkLen : ∀ c ∈ chunks, c.length = signatureByteSize := by
+    intro c hcm
+    obtain ⟨i, hi, rfl⟩ := List.mem_map.1 hcm
+    rw [← c1]; exact hlens i hi
+  have hflen : sigBytes.length = signatureByteSize * idx.length := by
+    rw [hflat]
+    have : ∀ (cs : List Bytes), (∀ c ∈ cs, c.length = signatureByteSize) →
+        cs.flatten.length = signatureByteSize * cs.length := by
+      intro cs; induction cs with
+      | nil => simp
+      | cons c cs ih =>
+        intro h
+        simp only [List.flatten_cons, List.length_append, List.length_cons, h c (by simp),
+          ih (fun c' hc' => h c' (by simp [hc'])), Nat.mul_succ]; omega
+    have := this chunks hchunkLen
+    simpa [chunks] using this
+  have hcount : sigBytes.length / signatureByteSize = idx.length := by
+    rw [hflen]; exact Nat.mul_div_cancel_left _ c6
+  simp only [validateSignatures, e2', hpick, hcount]
+  have hmain := checkSigLoop_concat recover (ethSigned H (H pre)) signatureByteSize chunks
+    ((idx.map (fun i => inp.ids.getD (i - 1) 0)).map addrOf) [] 0 [] (by simp) rfl
+    (by simp [chunks]) hchunkLen
+    (by
+      intro p hp
+      have hz : chunks.zip ((idx.map (fun i => inp.ids.getD (i - 1) 0)).map addrOf) =
+          idx.map (fun i => ((inp.sigs.lookup i).getD [], addrOf (inp.ids.getD (i - 1) 0))) := by
+        simp only [chunks, List.map_map]
+        rw [List.zip_map']
+        rfl
+      rw [hz] at hp
+      obtain ⟨i, hi, rfl⟩ := List.mem_map.1 hp
+      obtain ⟨s, hs, hmem⟩ := lookup_of_mem_keys inp.sigs i (mem_sortNat.1 hi)
+      simp only [hs, Option.getD_some]
+      have hsg : s = sign (inp.ids.getD (i - 1) 0) (ethSigned H (H pre)) := hsigned (i, s) hmem
+      rw [hsg]
+      exact hlaw _ _)
+  rw [← hflat] at hmain
+  simpa [List.range_eq_range', chunks] using hmain
 
 
 end KeepVerif.C40
